@@ -38,6 +38,19 @@ def negfn(tier):
             spec["characs"].append(dict(name="alive", comps=["a", "b", "c"]))
             spec["tag"] = "negfn"
             yield spec
+        # births (a number parameter on a link out of a source compartment) driven by a function that is or becomes negative: no flow back into the source
+        for fn, ts, other in itertools.product(["0-5", "40-a", "400*(2000.4-t)", "b-30", "min(10, 60-a)"], [None, 1 / 12], [None, ("probability", None, 0.3)]):
+            spec = simspace.base_spec(["a", "b", "c"], dt)
+            spec["comps"].append(dict(name="src", kind="src"))
+            spec["pars"].append(dict(name="neg", fmt="number", fn=fn, ts=ts))
+            spec["links"].append(["src", "a", "neg"])
+            spec["pars"].append(dict(name="bk", fmt="rate", val=0.7))
+            spec["links"] += [["a", "b", "bk"], ["b", "c", "bk"]]
+            if other:
+                simspace.add_edge(spec, "a", "c", other, name="oth")
+            spec["characs"].append(dict(name="alive", comps=["a", "b", "c"]))
+            spec["tag"] = "negfn"
+            yield spec
 
 
 def zero_by_subtraction(tier):
